@@ -12,7 +12,7 @@
     [inc_end m g n] / [hh_end g n] = n lies on an included / on an H-H bond, [charge_changed a] = the two charges in typesGH differ.
     Theorems 13-17: the RadiusExpand helpers. *)
 From Coq Require Import List NArith ZArith Bool.
-From SK Require Import lib.LGraph lib.C01_GraphLemmas model.C01_Model model.C02_Model proof.C02_Proof proof.C02_Opts proof.C02_Ctx.
+From SK Require Import lib.LGraph lib.C01_GraphLemmas model.C01_Model model.C02_Model proof.C02_Proof proof.C02_Opts proof.C02_OptsEquiv proof.C02_Ctx.
 Import ListNotations.
 Local Open Scope Z_scope.
 
@@ -195,3 +195,25 @@ Print Assumptions C02_context_list.
 Theorem C02_construct_default : forall G H, its_construct_o false false G H = its_construct G H.
 Proof. exact its_construct_o_default. Qed.
 Print Assumptions C02_construct_default.
+
+(** 18. get_rc with options: commutes with every injective renumbering; returns a well-formed graph; is idempotent when
+        element_key keeps element and typesGH (without element the H-H test fails on the centre: witness) *)
+Theorem C02_rcx_equivariant : forall f : N -> N, (forall a b, f a = f b -> a = b) -> forall K d m (g : xits),
+  get_rc_x K d m (relabel f g) = relabel f (get_rc_x K d m g).
+Proof. exact rcx_equivariant. Qed.
+Print Assumptions C02_rcx_equivariant.
+
+Theorem C02_rcx_wf : forall K d m (g : xits), wf g -> wf (get_rc_x K d m g).
+Proof. exact rcx_wf. Qed.
+Print Assumptions C02_rcx_wf.
+
+Theorem C02_rcx_idem : forall K d m (g : xits), k_el K = true -> k_gh K = true -> wf g ->
+  geq (get_rc_x K d m (get_rc_x K d m g)) (get_rc_x K d m g).
+Proof. exact rcx_idem. Qed.
+Print Assumptions C02_rcx_idem.
+
+Theorem C02_rcx_idem_needs_element : exists (K : keysel) (g : xits),
+  wf g /\ k_gh K = true /\ length (gnodes (get_rc_x K false false g)) = 2%nat /\
+  gnodes (get_rc_x K false false (get_rc_x K false false g)) = [].
+Proof. exact rcx_idem_needs_element. Qed.
+Print Assumptions C02_rcx_idem_needs_element.
